@@ -29,7 +29,7 @@ def run(ctx):
     n4 = E.rule_fit_decided_on_fresh_frame(res, "C08-R4", m)
     E.rule_batch_order(res, "C08-R5", m)
     E.rule_header_fully_stamped(res, "C08-R6", m)
-    res.floor("C08-R1", 5)
+    res.floor("C08-R1", 4)
     res.floor("C08-R2", 12)
     res.floor("C08-R3", 1)
     res.floor("C08-R4", 1, n4)
